@@ -2,13 +2,18 @@
 package c08
 
 import (
+	"bytes"
 	"fmt"
+	"strings"
 	"testing"
 
+	"github.com/z7zmey/php-parser/pkg/ast"
+	"github.com/z7zmey/php-parser/pkg/token"
 	"pgregory.net/rapid"
 
 	"verif/astx"
 	"verif/harness"
+	"verif/inputs"
 	"verif/phpgen"
 	"verif/progs"
 	"verif/px"
@@ -191,4 +196,81 @@ func TestReplay(t *testing.T) {
 			harness.Failf(t, vi.Check, src, meta(v), "[%s] %s", v, bad)
 		}
 	}
+}
+
+// TestCorpusTriviaInsertion: the repository's own test programs (constructs
+// written by the library's authors, independent of the generator) with one
+// piece of trivia inserted at a drawn inter-token gap of PHP code.
+func TestCorpusTriviaInsertion(t *testing.T) {
+	harness.Check(t, "corpus-insertion", 20000, 600000, func(rt *rapid.T) {
+		src := inputs.Seed(rt)
+		v := rapid.SampledFrom([]px.Ver{px.V56, px.V74, {Major: 7, Minor: 2}}).Draw(rt, "version")
+		ref, bad := parseOK(src, v)
+		if bad != "" {
+			return
+		}
+		noGo := map[*token.Token]bool{}
+		astx.Walk(ref.Root, func(n ast.Vertex, _ string) bool {
+			switch n.(type) {
+			case *ast.ScalarEncapsed, *ast.ScalarHeredoc, *ast.ExprShellExec, *ast.StmtHaltCompiler:
+				for _, tk := range astx.Tokens(n) {
+					noGo[tk] = true
+				}
+				return false
+			}
+			return true
+		})
+		toks := astx.Tokens(ref.Root)
+		var sites []int
+		for i, tk := range toks {
+			if tk.Position == nil || noGo[tk] || tk.ID == token.T_INLINE_HTML {
+				continue
+			}
+			if i > 0 {
+				p := toks[i-1]
+				if p.ID == token.T_INLINE_HTML || noGo[p] && p.ID == token.T_END_HEREDOC || p.ID == token.T_END_HEREDOC {
+					continue
+				}
+				if p.ID == token.ID(';') && (bytes.Contains(p.Value, []byte("?>")) || (i > 1 && toks[i-2].ID == token.T_END_HEREDOC)) {
+					continue
+				}
+				if _, isHalt := ref.Root.(*ast.Root); isHalt && p.ID == token.T_HALT_COMPILER {
+					continue
+				}
+			}
+			if tk.ID == token.T_ECHO && bytes.Equal(tk.Value, []byte("<?=")) {
+				continue
+			}
+			if bytes.HasPrefix(tk.Value, []byte("?>")) {
+				continue // a comment between ";" and "?>" is the open finding semicolon-comment-close-tag
+			}
+			sites = append(sites, i)
+		}
+		if len(sites) == 0 {
+			return
+		}
+		i := sites[rapid.IntRange(0, len(sites)-1).Draw(rt, "site")]
+		triv := rapid.SampledFrom([]string{" ", "\n", "\r\n", "\t", "/*c*/", "/** d */", "//c\n", "#c\r\n", " /* a */ // b\n"}).Draw(rt, "trivia")
+		if i > 0 && toks[i-1].ID == token.T_OBJECT_OPERATOR && strings.ContainsAny(triv, "/#") {
+			triv = " " // after "->" a comment turns a keyword-named member back into a keyword
+		}
+		if i > 0 && len(toks[i-1].Value) > 0 {
+			last := toks[i-1].Value[len(toks[i-1].Value)-1]
+			if (last == '/' || last == '<' || last == '*') && len(toks[i].FreeFloating) == 0 && strings.HasPrefix(triv, "/") {
+				triv = " " + triv
+			}
+		}
+		at := toks[i].Position.StartPos
+		edited := append(append(append([]byte{}, src[:at]...), triv...), src[at:]...)
+		r, bad := parseOK(edited, v)
+		harness.Eval()
+		if bad != "" {
+			harness.Fail(rt, "insertion-rejected", edited, meta(v), "[%s] inserting %q before %s breaks a program that parses cleanly: %s\nedited: %q", v, triv, astx.TokString(toks[i]), bad, edited)
+		}
+		if d := astx.Equal(r.Root, ref.Root, astx.Structure); d != "" {
+			harness.Fail(rt, "insertion-structure-changed", edited, meta(v), "[%s] inserting %q before %s changed the tree: %s\nedited: %q", v, triv, astx.TokString(toks[i]), d, edited)
+		}
+		harness.Class("corpus-insertion")
+		harness.NonTrivial(edited, fmt.Sprintf("[%s +%q] %q", v, triv, trunc(edited, 200)))
+	})
 }
